@@ -1034,6 +1034,12 @@ func (w *w1World) setup() error {
 				reply.Options.ExpireAt = time.Now().Unix() + 3600
 				reply.ClientSideRefresh = true
 			}
+			if chHas(e.Channel, 'X') {
+				// expires almost at once; it stays a live subscription until the periodic
+				// check (presence tick + ClientExpiredSubCloseDelay) removes it
+				reply.Options.ExpireAt = time.Now().Unix() + 1
+				reply.ClientSideRefresh = true
+			}
 			var rerr error
 			if fail {
 				rerr = ErrorPermissionDenied
